@@ -204,16 +204,38 @@ def run_impl_raw(graph, inputs, intermediate=None):
 
 
 # ---------------------------------------------------------------- reference interpreter (oracle)
-def ref_run(graph, inputs):
-    """README semantics, written independently of the Coq model: returns (exported, log)."""
+def ref_run(graph, inputs, own_holds=False):
+    """README semantics, written independently of the Coq model: returns (exported, log).
+    own_holds=False: what a context holds belongs to the context (two stages registered on one context share one hold
+    list, drained at each registration) - this is what the implementation does.
+    own_holds=True: the property's reading - "events a stage holds back ... traverse all LATER stages": every holding
+    stage keeps its own events and they are released at ITS position (counters and other state stay shared; barriers
+    share their hold by design).  The two differ only when a holding stage shares its context with an EARLIER stage."""
     cells = {}
+    holds = {}
     log, out = [], []
 
-    def state(b, c):
-        return cells.setdefault(0 if b == "Barrier" else c, {"hold": [], "count": 0})
+    class _S(dict):
+        pass
+
+    def state(b, c, k=None):
+        s = cells.setdefault(0 if b == "Barrier" else c, {"hold": [], "count": 0})
+        if own_holds and b != "Barrier" and k is not None:
+            v = _S(s)
+            v["hold"] = holds.setdefault(k, [])
+            v._cell, v._k = s, k
+            return v
+        return s
+
+    def put(s, key, val):
+        if isinstance(s, _S) and key == "hold":
+            holds[s._k] = val
+        elif isinstance(s, _S):
+            s._cell[key] = val
+        s[key] = val
 
     def call(k, b, c, n):
-        s = state(b, c)
+        s = state(b, c, k)
         log.append([0, k + 1, n])
         if b in ("Pass", "PassShared"):
             return [n]
@@ -226,14 +248,14 @@ def ref_run(graph, inputs):
         if b == "DropOdd":
             return [n] if n % 2 == 0 else []
         if b in ("Hold", "HoldRev", "Barrier"):
-            s["hold"].append(n)
+            put(s, "hold", s["hold"] + [n])
             return []
         if b == "HoldEmit":
             o = s["hold"][:1]
-            s["hold"] = [n]
+            put(s, "hold", [n])
             return o
         if b == "Count":
-            s["count"] += 1
+            put(s, "count", s["count"] + 1)
             return [n]
         if b == "AddCount":
             return [n + 1000 * s["count"]]
@@ -251,9 +273,10 @@ def ref_run(graph, inputs):
     for n in inputs:
         out += push(0, [n])
     for k, (b, c) in enumerate(graph):
-        s = state(b, c)
+        s = state(b, c, k)
         log.append([1, 0 if b == "Barrier" else c])
-        h, s["hold"] = s["hold"], []
+        h = list(s["hold"])
+        put(s, "hold", [])
         if b == "HoldRev":
             h = h[::-1]
         for n in h:
@@ -337,6 +360,18 @@ def nontrivial(g, i):
     return False
 
 
+def shared_holder(g):
+    """a holding stage (not a barrier) registered on the context of an EARLIER non-barrier stage"""
+    seen_cells = set()
+    for b, c in g:
+        if b == "Barrier":
+            continue
+        if b in ("Hold", "HoldEmit", "HoldRev") and c in seen_cells:
+            return True
+        seen_cells.add(c)
+    return False
+
+
 def coq_graph(g):
     return enc.L([enc.P(ALIAS.get(b, b), enc.N(c)) for b, c in g])
 
@@ -350,6 +385,7 @@ def run(ctx):
     cases, n_exh = gen_cases(ctx)
     tmp = tempfile.mkdtemp(prefix="c03_")
     terms, oracle_failures, seen, nontriv = [], [], set(), 0
+    known_shape = []
     dist = {"graph_len": {}, "input_len": {}, "with_intermediate": 0, "barriers": {}}
     try:
         for g, i, inter in cases:
@@ -361,6 +397,14 @@ def run(ctx):
                     "input": {"graph": g, "events": i, "intermediate": inter},
                     "expected": {"exported": rout, "log": rlog}, "observed": {"exported": out, "log": log},
                     "signature": {"kind": "pipeline_log_differs_from_reference"}})
+            elif shared_holder(g) and len(known_shape) < 2:
+                pout, plog = ref_run(g, i, own_holds=True)
+                if (pout, plog) != (out, log):
+                    known_shape.append({
+                        "input": {"graph": g, "events": i, "intermediate": inter},
+                        "expected": {"exported": pout, "log": plog}, "observed": {"exported": out, "log": log},
+                        "signature": {"kind": "held_events_released_at_an_earlier_stage_of_a_shared_context",
+                                      "holder_shares_context_with_earlier_stage": True}})
             key = (tuple(g), tuple(i))
             if key not in seen:
                 seen.add(key)
@@ -378,7 +422,7 @@ def run(ctx):
     mism = [{"name": "correspondence C03Model.run_val vs EventProcessor/Engine/pipeline_barrier",
              "case": {"graph": cases[j][0], "events": cases[j][1], "intermediate": cases[j][2]},
              "impl": terms[j][1][:400]} for j in bad[:5]]
-    oracle_failures = [shrink(f) for f in oracle_failures[:3]]
+    oracle_failures = [shrink(f) for f in oracle_failures[:3]] + known_shape[:1]
     return {
         "evaluations": len(cases), "distinct_nontrivial": nontriv,
         "rule": f"all stage graphs of length <= {ctx.pick(3, 4)} over {len(BEHS)} behaviours x fixed short inputs "
